@@ -1,5 +1,229 @@
-import CssVerif.Model.Tokenizer
+/-
+C08 — Tokenizing is total, lossless and reports true source positions.
+
+Property theorems only.  They are stated for the production table that
+`harness/gen_tables.py` regenerates from /repo on every run (`Gen.tables`); the
+four side conditions are decided by the kernel on that table.
+-/
+import CssVerif.Proofs.Tokenizer
 import CssVerif.Gen.Productions
 namespace CssVerif.C08
-theorem placeholder : True := trivial
+open CssVerif Re
+
+/-! ### obligations on the regenerated tables -/
+
+/-- no production can match the empty string (so the loop always advances) -/
+theorem gen_nonNullable : allNonNullable Gen.tables = true := by decide
+/-- the fall-back productions cover every code point -/
+theorem gen_coversAll : coversAll Gen.tables = true := by decide
+/-- the single-character fast path never sees a newline (column bookkeeping) -/
+theorem gen_fastNoNl : fastNoNl Gen.tables = true := by decide
+/-- un-escaping only ever touches text that contains a backslash -/
+theorem gen_backslashOnly : backslashOnly Gen.tables = true := by decide
+
+/-! ### prelude (BOM, leading `@charset `) -/
+
+section
+variable (T : Tables)
+
+theorem bom_found_prefix (s rem : Text) : consumed s rem ++ s.drop (consumed s rem).length = s :=
+  prefix_drop_eq (consumed_prefix s rem)
+
+theorem hasAt_prefix {s pat : Text} (h : hasAt s pat = true) : pat ++ s.drop pat.length = s := by
+  unfold hasAt at h
+  exact prefix_drop_eq (List.isPrefixOf_iff_prefix.mp h)
+
+/-- the prelude's raw matches followed by the loop's start text are the whole text -/
+theorem prelude_partition (s : Text) :
+    (prelude T s).1.flatMap (·.2) ++ (prelude T s).2.rest = s := by
+  unfold prelude
+  split
+  · rename_i rem _
+    simp only
+    split
+    · rename_i hcs
+      simp only [List.flatMap_append, List.flatMap_cons, List.flatMap_nil, List.append_nil, List.append_assoc]
+      rw [hasAt_prefix hcs]
+      exact bom_found_prefix s rem
+    · simp only [List.flatMap_cons, List.flatMap_nil, List.append_nil]
+      exact bom_found_prefix s rem
+  · simp only
+    split
+    · rename_i hcs
+      simp only [List.nil_append, List.flatMap_cons, List.flatMap_nil, List.append_nil]
+      exact hasAt_prefix hcs
+    · simp
+
+theorem lineCol_nil : lineCol [] = (1, 1) := by simp [lineCol, countNl]
+theorem lineCol_charset : lineCol charsetLit = (1, 10) := by decide
+
+/-- positions reported by the prelude tokens and handed to the loop, BOM counting as zero width -/
+theorem prelude_position (s : Text) :
+    ((prelude T s).2.line, (prelude T s).2.col)
+        = lineCol (((prelude T s).1.flatMap (·.2)).drop (bomLen T s)) ∧
+    bomLen T s ≤ ((prelude T s).1.flatMap (·.2)).length ∧
+    ∀ (i : Nat) (p : Tok × Text), (prelude T s).1[i]? = some p →
+      (p.1.line, p.1.col) = lineCol ((((prelude T s).1.take i).flatMap (·.2)).drop (bomLen T s)) ∧
+      p.1.val = p.2 := by
+  unfold prelude bomLen
+  split
+  · rename_i rem hrem
+    simp only
+    split
+    · simp only [List.flatMap_append, List.flatMap_cons, List.flatMap_nil, List.append_nil,
+        List.drop_left, List.length_append]
+      refine ⟨by rw [lineCol_charset]; rfl, by omega, ?_⟩
+      intro i p hp
+      match i with
+      | 0 => simp at hp; subst hp; simp [lineCol_nil]
+      | 1 => simp at hp; subst hp; simp [lineCol_nil]
+      | (k+2) => simp at hp
+    · simp only [List.flatMap_cons, List.flatMap_nil, List.append_nil, List.drop_length]
+      refine ⟨by rw [lineCol_nil], by omega, ?_⟩
+      intro i p hp
+      match i with
+      | 0 => simp at hp; subst hp; simp [lineCol_nil]
+      | (k+1) => simp at hp
+  · simp only
+    split
+    · simp only [List.nil_append, List.flatMap_cons, List.flatMap_nil, List.append_nil, List.drop_zero]
+      refine ⟨by rw [lineCol_charset]; rfl, by omega, ?_⟩
+      intro i p hp
+      match i with
+      | 0 => simp at hp; subst hp; simp [lineCol_nil]
+      | (k+1) => simp at hp
+    · simp only [List.flatMap_nil, List.drop_nil]
+      exact ⟨by rw [lineCol_nil], by simp, by intro i p hp; simp at hp⟩
+
+theorem prelude_rest_suffix (s : Text) : (prelude T s).2.rest <:+ s :=
+  ⟨_, prelude_partition T s⟩
+
+end
+
+/-! ### the property, for an arbitrary table satisfying the side conditions -/
+
+section
+variable (T : Tables) (hnn : allNonNullable T = true) (hcov : coversAll T = true)
+  (hfast : fastNoNl T = true) (hbs : backslashOnly T = true)
+include hnn hfast
+
+/-- **total**: the loop ends because the text is used up — never out of fuel, never stuck -/
+theorem tokenize_total_of (hcov : coversAll T = true) (cfg : Cfg) (s : Text) :
+    (tokenize T cfg s).endKind = .done := by
+  simp only [tokenize]
+  exact loop_done T hnn hfast hcov cfg _ _ (by omega)
+
+theorem items_flatMap (cfg : Cfg) (s : Text) :
+    (tokenize T cfg s).items.flatMap (·.2) =
+      (prelude T s).1.flatMap (·.2) ++
+        (loop T cfg ((prelude T s).2.rest.length + 1) (prelude T s).2).1.flatMap (·.2) := by
+  simp only [tokenize, List.flatMap_append]
+  congr 1
+  induction (prelude T s).1 with
+  | nil => rfl
+  | cons x xs ih => simp [List.flatMap_cons, ih]
+
+/-- **lossless**: the raw matches concatenate to the text, followed by a completion of at most two
+characters that is empty outside full-sheet mode -/
+theorem partition_of (hcov : coversAll T = true) (cfg : Cfg) (s : Text) :
+    ∃ c, (tokenize T cfg s).items.flatMap (·.2) = s ++ c ∧ c.length ≤ 2 ∧
+      (cfg.fullsheet = false → c = []) := by
+  obtain ⟨c, hc, _, hcl, hcf⟩ :=
+    loop_partition T hnn hfast cfg ((prelude T s).2.rest.length + 1) (prelude T s).2
+  have hdone := loop_done T hnn hfast hcov cfg ((prelude T s).2.rest.length + 1) (prelude T s).2 (by omega)
+  have hnil := loop_rest_nil T cfg _ _ hdone
+  rw [hnil, List.append_nil] at hc
+  refine ⟨c, ?_, hcl, hcf⟩
+  rw [items_flatMap T hnn hfast cfg s, hc, ← List.append_assoc, prelude_partition T s]
+
+/-- **escape-free values**: if the text contains no backslash, every emitted token's value is its
+raw match — so the token values themselves concatenate to the text (plus completion) -/
+theorem value_eq_raw_of (hbs : backslashOnly T = true) (cfg : Cfg) (s : Text) (hs : ∀ c ∈ s, c ≠ 92) :
+    ∀ it ∈ (tokenize T cfg s).items, ∀ t, it.1 = some t → t.val = it.2 := by
+  intro it hit t ht
+  simp only [tokenize, List.mem_append, List.mem_map] at hit
+  rcases hit with ⟨p, hp, rfl⟩ | hit
+  · obtain ⟨i, hi⟩ := List.getElem?_of_mem hp
+    simp only [Option.some.injEq] at ht
+    subst ht
+    exact ((prelude_position T s).2.2 i p hi).2
+  · have hrest : NoBs (prelude T s).2.rest := fun c hc => hs c ((prelude_rest_suffix T s).subset hc)
+    exact loop_values T hnn hfast hbs cfg _ _ hrest it hit t ht
+
+/-- **positions**: the i-th match, if it emitted a token, reports the 1-based line and column of
+the place where it starts: the position reached by all earlier raw matches, the byte-order mark
+counting as zero width -/
+theorem position_of (cfg : Cfg) (s : Text) (i : Nat) (t : Tok) (raw : Text)
+    (h : (tokenize T cfg s).items[i]? = some (some t, raw)) :
+    (t.line, t.col) = lineCol ((((tokenize T cfg s).items.take i).flatMap (·.2)).drop (bomLen T s)) := by
+  obtain ⟨hst, hbl, hpre⟩ := prelude_position T s
+  simp only [tokenize] at h ⊢
+  by_cases hi : i < (prelude T s).1.length
+  · have hi' : i < ((prelude T s).1.map (fun p => (some p.1, p.2))).length := by simpa using hi
+    rw [List.getElem?_append_left hi'] at h
+    simp only [List.getElem?_map, Option.map_eq_some_iff] at h
+    obtain ⟨p, hp, hpe⟩ := h
+    have := (hpre i p hp).1
+    have hpt : p.1 = t := Option.some.inj (congrArg Prod.fst hpe)
+    rw [← hpt, this]
+    congr 2
+    rw [List.take_append_of_le_length (by simpa using Nat.le_of_lt hi), ← List.map_take]
+    generalize (prelude T s).1.take i = l
+    induction l with
+    | nil => rfl
+    | cons x xs ih => simp [List.flatMap_cons, ih]
+  · have hge : ((prelude T s).1.map (fun p => ((some p.1 : Option Tok), p.2))).length ≤ i := by
+      simpa using Nat.le_of_not_lt hi
+    have hmap : ((prelude T s).1.map (fun p => ((some p.1 : Option Tok), p.2))).flatMap (·.2)
+        = (prelude T s).1.flatMap (·.2) := by
+      generalize (prelude T s).1 = l
+      induction l with
+      | nil => rfl
+      | cons x xs ih => simp [List.flatMap_cons, ih]
+    rw [List.getElem?_append_right hge] at h
+    have hpos := loop_position T hnn hfast cfg _ _ _ t raw h
+    rw [hst, lineCol_eq_adv, adv_append, ← lineCol_eq_adv] at hpos
+    rw [hpos]
+    congr 1
+    rw [List.take_append, List.take_of_length_le hge, List.flatMap_append, hmap,
+      List.drop_append_of_le_length hbl]
+
+end
+end CssVerif.C08
+
+/-! ### the property for the table in /repo today -/
+namespace CssVerif.C08
+open CssVerif
+
+theorem tokenize_total (cfg : Cfg) (s : Text) : (tokenize Gen.tables cfg s).endKind = .done :=
+  tokenize_total_of Gen.tables gen_nonNullable gen_fastNoNl gen_coversAll cfg s
+
+theorem partition (cfg : Cfg) (s : Text) :
+    ∃ c, (tokenize Gen.tables cfg s).items.flatMap (·.2) = s ++ c ∧ c.length ≤ 2 ∧
+      (cfg.fullsheet = false → c = []) :=
+  partition_of Gen.tables gen_nonNullable gen_fastNoNl gen_coversAll cfg s
+
+theorem value_eq_raw (cfg : Cfg) (s : Text) (hs : ∀ c ∈ s, c ≠ 92) :
+    ∀ it ∈ (tokenize Gen.tables cfg s).items, ∀ t, it.1 = some t → t.val = it.2 :=
+  value_eq_raw_of Gen.tables gen_nonNullable gen_fastNoNl gen_backslashOnly cfg s hs
+
+theorem position (cfg : Cfg) (s : Text) (i : Nat) (t : Tok) (raw : Text)
+    (h : (tokenize Gen.tables cfg s).items[i]? = some (some t, raw)) :
+    (t.line, t.col) =
+      lineCol ((((tokenize Gen.tables cfg s).items.take i).flatMap (·.2)).drop (bomLen Gen.tables s)) :=
+  position_of Gen.tables gen_nonNullable gen_fastNoNl cfg s i t raw h
+
+/-- with comments kept, every match emits its token: nothing is dropped from the stream -/
+theorem all_emitted (s : Text) (full : Bool) :
+    ∀ it ∈ (tokenize Gen.tables ⟨full, true⟩ s).items, it.1.isSome := by
+  intro it hit
+  simp only [tokenize, List.mem_append, List.mem_map] at hit
+  rcases hit with ⟨p, _, rfl⟩ | hit
+  · rfl
+  · exact loop_emits Gen.tables ⟨full, true⟩ rfl _ _ it hit
+
+/-- non-vacuity: a concrete text with a BOM, `@charset `, a newline and an unterminated string -/
+example : (tokenize Gen.tables ⟨true, true⟩ [239, 187, 191, 97, 10, 34, 120]).toks.map (fun t => (t.typ, t.line, t.col))
+    = [("BOM", 1, 1), ("IDENT", 1, 1), ("S", 1, 2), ("STRING", 2, 1), ("EOF", 2, 4)] := by decide
+
 end CssVerif.C08
